@@ -22,10 +22,11 @@ package tlb
 //
 // Allow-list for real data (a different hash is tolerated ONLY in this case, everything else fails): the source and
 // the re-encoded tree are identical except that dictionary edges carry the same label in a different valid form
-// (hml_short / hml_long / hml_same) AND the source is the side that does not use the shortest form (the form the
-// reference implementation always emits). When the source is canonical and the re-encoding is not, the case is
-// reported under rc_dictionary_labels_not_canonical. Either-side and Maybe choices are kept by the decoded value, so
-// they never explain a difference. All counters are printed (C04-REALDATA lines).
+// (hml_short / hml_long / hml_same; the schema does not make the label form unique, so C04 does not require the hash
+// there) AND the re-encoded tree decodes to a value equal (vhDiff) to the one decoded from the source. Such cases are
+// only counted (C04-REALDATA ...differs_label_form_only(tolerated,...) lines, split by which side deviates from the
+// shortest form the reference implementation emits). Either-side and Maybe choices are kept by the decoded value, so
+// they never explain a difference.
 
 import (
 	"fmt"
@@ -50,10 +51,10 @@ type c04Enc struct {
 }
 
 type c04Ref struct {
-	cell *boc.Cell          // a concrete cell, or
-	enc  *c04Enc            // a cell described by an expected encoding, or
-	dict map[string]c04Enc  // the root cell of a (Hashmap n X): key bits -> expected value encoding
-	n    int                // key length of dict
+	cell *boc.Cell         // a concrete cell, or
+	enc  *c04Enc           // a cell described by an expected encoding, or
+	dict map[string]c04Enc // the root cell of a (Hashmap n X): key bits -> expected value encoding
+	n    int               // key length of dict
 }
 
 func (e *c04Enc) add(o c04Enc) *c04Enc {
@@ -541,10 +542,10 @@ func TestVerifStandin_C04_BitExact(t *testing.T) {
 		type tagged struct {
 			M  Magic `tlb:"x#a5f"`
 			A  Uint3
-			P  *Uint8       `tlb:"maybe"`
-			Q  *Uint16      `tlb:"maybe^"`
-			R  Int7         `tlb:"^"`
-			N  Magic        `tlb:"y$01101"`
+			P  *Uint8  `tlb:"maybe"`
+			Q  *Uint16 `tlb:"maybe^"`
+			R  Int7    `tlb:"^"`
+			N  Magic   `tlb:"y$01101"`
 			My Maybe[Uint4]
 			E  Either[Uint5, Ref[Uint9]]
 			ER EitherRef[Int6]
@@ -912,11 +913,11 @@ func c04ShadowValue(v reflect.Value) reflect.Value {
 }
 
 type c04Real struct {
-	t       *testing.T
-	stat    *vhStat
-	fails   *vhFailures
-	counts  map[string]int
-	maxKey  int
+	t      *testing.T
+	stat   *vhStat
+	fails  *vhFailures
+	counts map[string]int
+	maxKey int
 }
 
 // check re-encodes v (decoded from src) and compares hashes. kind names the record kind in the counters.
@@ -945,18 +946,28 @@ func (r *c04Real) check(kind string, v any, src *boc.Cell, srcHash string, where
 		return
 	}
 	if src != nil {
-		if explained, srcCanonical := c04ExplainedByLabels(src, c, r.maxKey); explained && !srcCanonical {
-			// allow-list: the chain data itself used a valid but not shortest label form
-			r.counts[kind+".differs_source_label_form_not_canonical(allowed)"]++
-			return
-		} else if explained {
-			// same mapping, but the library emitted a longer label form than the (canonical) chain data
-			r.counts[kind+".differs_library_label_form_not_canonical"]++
-			d := ""
-			if r.fails.wants("rc_dictionary_labels_not_canonical") {
-				d = c04FirstDiff(src, c, "root")
+		if explained, srcCanonical := c04ExplainedByLabels(src, c, r.maxKey); explained {
+			// The two trees are identical except for the hml_* form of dictionary labels (same label, same remainder).
+			// Tolerated only if, in addition, the re-encoded tree decodes to the same value as the source did.
+			fresh := reflect.New(reflect.TypeOf(v))
+			var derr error
+			c.ResetCounters()
+			if p := vhSafe(func() { derr = Unmarshal(c, fresh.Interface()) }); p != "" || derr != nil {
+				r.counts[kind+".differs_label_form_only_but_reencoding_not_decodable"]++
+				r.fails.add("rc_reencoded_tree_not_decodable/"+kind, "%s %s (source hash %s): the re-encoded tree differs from the source only in label form but does not decode: %v %v", kind, where, srcHash, p, derr)
+				return
 			}
-			r.fails.add("rc_dictionary_labels_not_canonical", "%s %s: source hash %s, re-encoded hash %s; the trees differ only in the hml_* form of dictionary labels and the source uses the shortest form\n      %s", kind, where, srcHash, h, d)
+			if d := vhDiff(v, fresh.Elem().Interface()); d != "" {
+				r.counts[kind+".differs_label_form_only_but_decodes_to_another_value"]++
+				r.fails.add("rc_reencoded_tree_decodes_to_another_value/"+kind, "%s %s (source hash %s): %s", kind, where, srcHash, d)
+				return
+			}
+			if srcCanonical {
+				// informational: the chain uses the shortest label form, the library another valid one
+				r.counts[kind+".differs_label_form_only(tolerated,library_form_not_shortest)"]++
+			} else {
+				r.counts[kind+".differs_label_form_only(tolerated,source_form_not_shortest)"]++
+			}
 			return
 		}
 	}
@@ -1002,7 +1013,7 @@ type c04RawShardState struct {
 
 func TestVerifStandin_C04_RealData(t *testing.T) {
 	r := &c04Real{t: t, stat: newVhStat("c04_realdata"), counts: map[string]int{}, maxKey: 256,
-		fails: newVhFailures("rc_marshal_panics_on_unexported_struct_field", "rc_dictionary_labels_not_canonical")}
+		fails: newVhFailures("rc_marshal_panics_on_unexported_struct_field")}
 	defer debug.SetGCPercent(debug.SetGCPercent(400))
 	// quick tier: all transactions, messages and accounts, but only ~100 evenly spaced InMsg / OutMsg records per block
 	// (each of them embeds a transaction that is checked anyway); thorough: every record
